@@ -8,9 +8,10 @@ a listener registered since the SubConn last became READY (`opOk`).
 -/
 import GrpcProofs.Lemmas.PickFirstAddr
 import GrpcProofs.Lemmas.PickFirst
+import GrpcProofs.Lemmas.PickFirstReady
 import GrpcModel.Generated.PickFirst
 namespace GrpcProofs.C34
-open GrpcModel.PickFirst GrpcProofs.Lemmas.PickFirst GrpcProofs.Lemmas.PickFirstAddr
+open GrpcModel.PickFirst GrpcProofs.Lemmas.PickFirst GrpcProofs.Lemmas.PickFirstAddr GrpcProofs.Lemmas.PickFirstReady
 open GrpcModel.LbConnState (ConnState)
 
 /-- T4: the three address families and the happy-eyeballs delay the harness waits for (250 ms). -/
@@ -56,6 +57,17 @@ theorem ready_reported_only_for_raw_ready (ops : List Op) (op : Op) (hok : RunOk
     | cons o t ih => intro h; obtain ⟨a, b⟩ := ih _ h.2; exact ⟨⟨h.1, a⟩, b⟩
   obtain ⟨h1, h2⟩ := split_ok {} ops hok
   exact (step_post _ op (good_run {} ops good_init h1) h2).2 st p h
+
+/-- pick_first never returns a SubConn unless that SubConn's latest (raw) state is READY — every
+    reachable state of a balancer that was not closed: a Pick on the channel's picker returns SubConn X
+    only if X is the one SubConn of the map and its rawConnectivityState is READY; and whenever the
+    reported state is READY the picker is that SubConn's. -/
+theorem pick_returns_only_ready_subconn (ops : List Op) (hok : RunOk {} ops) (hns : (run {} ops).state ≠ .shutdown) :
+    (∀ X, (pick (run {} ops)).2.2 = .sc X → ∃ sc, (run {} ops).subConns = [sc] ∧ sc.id = X ∧ sc.raw = .ready) ∧
+    ((run {} ops).state = .ready →
+      ∃ sc, (run {} ops).subConns = [sc] ∧ sc.raw = .ready ∧ (run {} ops).picker = .ready sc.id) := by
+  have hr := reg_ready _ (reg_run {} ops good_init reg_init hok) hns
+  exact ⟨fun X hX => hr.1 X (pick_sc _ X hX), hr.2⟩
 
 /-- Once one SubConn becomes READY all other SubConns are shut down: afterwards the map holds that
     SubConn only, and Shutdown() was called on every other SubConn of the map. -/
